@@ -269,13 +269,13 @@ pub(crate) mod kani_verif {
     protocol_harness!(c04_core_l1, false, 1);
     // @h name=c04_core_l2 props=C04,C11,C05,C03 tier=thorough kind=proved cfg=L2w8 timeout=1500 kani_args="--no-memory-safety-checks --no-undefined-function-checks" funcs=hss_sign_core contract="same, valid 2-level lists"
     protocol_harness!(c04_core_l2, false, 2);
-    // @h name=c04_core_empty props=C04,C11,C05 tier=quick kind=proved cfg=L2w8 timeout=1500 kani_args="--no-memory-safety-checks --no-undefined-function-checks" funcs=hss_sign_core;CompressedParameterSet::to contract="empty parameter list (wiped / exhausted key): Err, callback not invoked, nothing signed"
+    // @h name=c04_core_empty props=C04,C11!,C05! tier=quick kind=proved cfg=L2w8 timeout=1500 kani_args="--no-memory-safety-checks --no-undefined-function-checks" funcs=hss_sign_core;CompressedParameterSet::to contract="empty parameter list (wiped / exhausted key): Err, callback not invoked, nothing signed"
     protocol_harness!(c04_core_empty, false, 0);
-    // @h name=c04_core_bad0 props=C04,C11,C14 tier=quick kind=proved cfg=L2w8 timeout=1500 kani_args="--no-memory-safety-checks --no-undefined-function-checks" funcs=hss_sign_core;CompressedParameterSet::to contract="parameter byte 0 invalid or beyond the build limits: Err, no panic, callback not invoked"
+    // @h name=c04_core_bad0 props=C04,C11!,C14! tier=quick kind=proved cfg=L2w8 timeout=1500 kani_args="--no-memory-safety-checks --no-undefined-function-checks" funcs=hss_sign_core;CompressedParameterSet::to contract="parameter byte 0 invalid or beyond the build limits: Err, no panic, callback not invoked"
     protocol_harness!(c04_core_bad0, false, 10);
     // @h name=c04_core_bad1 props=C04,C11,C14 tier=thorough kind=proved cfg=L2w8 timeout=1500 kani_args="--no-memory-safety-checks --no-undefined-function-checks" funcs=hss_sign_core;CompressedParameterSet::to contract="parameter byte 1 invalid or beyond the build limits"
     protocol_harness!(c04_core_bad1, false, 11);
-    // @h name=c04_core_toomany props=C04,C11,C14 tier=quick kind=proved cfg=L2w8 timeout=1500 kani_args="--no-memory-safety-checks --no-undefined-function-checks" funcs=hss_sign_core;ReferenceImplPrivateKey::from_binary_representation contract="more levels than the build supports: Err, callback not invoked"
+    // @h name=c04_core_toomany props=C04,C11!,C14! tier=quick kind=proved cfg=L2w8 timeout=1500 kani_args="--no-memory-safety-checks --no-undefined-function-checks" funcs=hss_sign_core;ReferenceImplPrivateKey::from_binary_representation contract="more levels than the build supports: Err, callback not invoked"
     protocol_harness!(c04_core_toomany, false, 20);
     // @h name=c04_hss_sign_l1 props=C04,C09 tier=thorough kind=proved cfg=L2w8 timeout=1500 kani_args="--no-memory-safety-checks --no-undefined-function-checks" funcs=hss_sign contract="same protocol through the public byte-level entry point hss_sign, 1 level"
     protocol_harness!(c04_hss_sign_l1, true, 1);
@@ -291,7 +291,7 @@ pub(crate) mod kani_verif {
     protocol_harness!(c04_w8_bad7, false, 17);
 
     // ------------------------------------------------------------------ C11/C04: key blobs of the wrong length
-    // @h props=C11,C04 tier=quick kind=proved cfg=L2w8 timeout=1200 funcs=hss_sign_core;ReferenceImplPrivateKey::from_binary_representation;SigningKey::get_lifetime contract="key blobs of length 0, 1, 31, 33, 48, 64 (n=16: valid length is 32) with arbitrary content: Err, no panic, callback not invoked; get_lifetime Err"
+    // @h props=C11,C04! tier=quick kind=proved cfg=L2w8 timeout=1200 funcs=hss_sign_core;ReferenceImplPrivateKey::from_binary_representation;SigningKey::get_lifetime contract="key blobs of length 0, 1, 31, 33, 48, 64 (n=16: valid length is 32) with arbitrary content: Err, no panic, callback not invoked; get_lifetime Err"
     #[kani::proof]
     #[kani::stub(zeroize::optimization_barrier, no_barrier)]
     #[kani::stub(<[u8; 32] as tinyvec::Array>::default, fast_default)]
@@ -352,7 +352,7 @@ pub(crate) mod kani_verif {
         private_key_update_function(&newk).map_err(|_| Error::new())?;
         Signature::from_bytes_verbose(&[9u8, 9], 0)
     }
-    // @h props=C09,C04,C03 tier=quick kind=proved cfg=L2w8 timeout=1200 funcs=SigningKey::try_sign_with_aux;SigningKey::try_sign contract="try_sign(msg) == hss_sign(msg, self.bytes, copy-back, None): passes the current key bytes, and afterwards self.bytes is exactly the callback's argument if the callback ran, unchanged otherwise; every key content"
+    // @h props=C09,C04!,C03! tier=quick kind=proved cfg=L2w8 timeout=1200 funcs=SigningKey::try_sign_with_aux;SigningKey::try_sign contract="try_sign(msg) == hss_sign(msg, self.bytes, copy-back, None): passes the current key bytes, and afterwards self.bytes is exactly the callback's argument if the callback ran, unchanged otherwise; every key content"
     #[kani::proof]
     #[kani::stub(zeroize::optimization_barrier, no_barrier)]
     #[kani::stub(<[u8; 32] as tinyvec::Array>::default, fast_default)]
@@ -476,7 +476,7 @@ pub(crate) mod kani_verif {
         private_key_update_function(&newk).map_err(|_| Error::new())?;
         Signature::from_bytes_verbose(&[9u8, 9], 0)
     }
-    // @h props=C04,C09 tier=quick kind=proved cfg=L2w8 timeout=1200 funcs=hss_sign contract="hss_sign == hss_sign_core(Some(msg), None, ..): one call of the core, the caller's callback is invoked exactly as often as the core invokes the one it is given (never retried), Ok only if the callback accepted; core by contract"
+    // @h props=C04,C09! tier=quick kind=proved cfg=L2w8 timeout=1200 funcs=hss_sign contract="hss_sign == hss_sign_core(Some(msg), None, ..): one call of the core, the caller's callback is invoked exactly as often as the core invokes the one it is given (never retried), Ok only if the callback accepted; core by contract"
     #[kani::proof]
     #[kani::stub(<[u8; 32] as tinyvec::Array>::default, fast_default)]
     #[kani::stub(crate::hss::hss_sign_core, stub_sign_core_protocol)]
